@@ -141,6 +141,31 @@ def run(plan, stats):
                 account(plan, stats, real_f, sorted(real_f.fired))
     else:
         stats.faults.update(real_b.fired)
+    # the embedder runs the program again with the SAME options object (after a run that failed inside an include, or
+    # after any run): resolution in the second run starts from the embedder's own base again
+    prev = real_f if plan.get('fetch_faults') else real_b
+    if not viols and (prev.error is not None or plan.get('seed', 0) % 4 == 0) and \
+            not (prev.error is not None and prev.error[0] == 'watchdog'):
+        again = run_real(base_plan, limit=0, sim_options=True, max_starts=20000, model=copy.deepcopy(real_model),
+                         reuse_options=prev.extra['options'])
+        stats.c['evaluations'] += 1
+        stats.probes['options_object_reused_for_a_second_run'] += 1
+        if prev.error is not None:
+            stats.probes['options_object_reused_after_a_failed_run'] += 1
+        dig.append(again.summary())
+        diff = None
+        if norm_events(again.events) != norm_events(real_b.events):
+            diff = 'events'
+        elif again.error != real_b.error or again.result != real_b.result:
+            diff = ('outcome', again.error, real_b.error)
+        elif again.globals != real_b.globals:
+            diff = 'globals'
+        if diff is not None:
+            viols.append(Violation(PROP, 'where', 'second-run-with-reused-options-differs:' +
+                                   ('after-failed-run' if prev.error is not None else 'after-completed-run'),
+                                   {'diff': diff, 'first_run_error': prev.error,
+                                    'fetches_fresh': [e[1] for e in real_b.events if e[0] == 'fetch'][:8],
+                                    'fetches_second': [e[1] for e in again.events if e[0] == 'fetch'][:8]}))
     sample = None
     if stats.c['evaluations'] % 211 == 1 and plan.get('files'):
         sample = {'seed': plan.get('seed'), 'url_kind': plan.get('url_kind'), 'system_prefix': plan.get('system_prefix'),
